@@ -15,40 +15,42 @@ theorem run_errs_length (p : Option Tok) (rs : List Raw) : (run p rs).2.length =
   | cons r rs ih => simp [run, ih]
 
 theorem step_err (p : Option Tok) (v : Nat) :
-    (step p (.int v)).2.2 = true ↔ (maxP1 < v ∨ (v = maxP1 ∧ p = none)) := by
+    (step p (.int v)).2.2 = true ↔ (maxP1 < v ∨ (v = maxP1 ∧ p ≠ some (.raw .minus))) := by
   simp only [step, maxP1, i64Lim]
   by_cases h1 : 9223372036854775808 ≤ v
   · simp [h1]; omega
-  · by_cases h2 : 2147483648 < v ∨ v = 2147483648 ∧ p = none
+  · by_cases h2 : 2147483648 < v ∨ v = 2147483648 ∧ p ≠ some (Tok.raw Raw.minus)
     · simp [h1, h2]
     · by_cases h3 : v = 2147483648 ∧ p = some (Tok.raw Raw.minus)
       · simp [h3]
       · simp [h1, h2, h3]
 
-theorem step_err_nonint (p : Option Tok) (r : Raw) (h : ∀ v, r ≠ .int v) :
-    (step p r).2.2 = false := by
-  cases r with
-  | int v => exact absurd rfl (h v)
-  | minus => rfl
-  | other k => rfl
+/-- Which previous token the merge test sees at index `i`. -/
+def prevIsMinus (p : Option Tok) (rs : List Raw) (i : Nat) : Prop :=
+  match i with
+  | 0 => p = some (.raw .minus)
+  | j + 1 => rs[j]? = some .minus
 
 /-- Exact description of where the producer reports "Not a 32-bit integer.". -/
 theorem run_err (p : Option Tok) (rs : List Raw) (i v : Nat) (h : rs[i]? = some (.int v)) :
-    (run p rs).2[i]? = some true ↔ (maxP1 < v ∨ (v = maxP1 ∧ i = 0 ∧ p = none)) := by
+    (run p rs).2[i]? = some true ↔ (maxP1 < v ∨ (v = maxP1 ∧ ¬ prevIsMinus p rs i)) := by
   induction rs generalizing p i with
   | nil => simp at h
   | cons r rs ih =>
     cases i with
     | zero =>
       simp at h; subst h
-      simp [run, step_err]
+      simp [run, step_err, prevIsMinus]
     | succ i =>
       simp at h
       have := ih (step p r).1 i h
-      simp [run, this, step_pending_ne_none]
+      simp only [run, List.getElem?_cons_succ, this]
+      cases i with
+      | zero => simp [prevIsMinus, step_pending_minus]
+      | succ j => simp [prevIsMinus]
 
 theorem run_err_false (p : Option Tok) (rs : List Raw) (i v : Nat) (h : rs[i]? = some (.int v)) :
-    (run p rs).2[i]? = some false ↔ ¬ (maxP1 < v ∨ (v = maxP1 ∧ i = 0 ∧ p = none)) := by
+    (run p rs).2[i]? = some false ↔ ¬ (maxP1 < v ∨ (v = maxP1 ∧ ¬ prevIsMinus p rs i)) := by
   have hlen := run_errs_length p rs
   have hi : i < rs.length := by
     rcases Nat.lt_or_ge i rs.length with h' | h'
@@ -58,12 +60,6 @@ theorem run_err_false (p : Option Tok) (rs : List Raw) (i v : Nat) (h : rs[i]? =
   have := run_err p rs i v h
   rw [List.getElem?_eq_getElem hi'] at this ⊢
   cases hb : (run p rs).2[i] <;> simp_all
-
-/-- Which previous token the merge test sees at index `i`. -/
-def prevIsMinus (p : Option Tok) (rs : List Raw) (i : Nat) : Prop :=
-  match i with
-  | 0 => p = some (.raw .minus)
-  | j + 1 => rs[j]? = some .minus
 
 theorem step_merge : (step (some (.raw .minus)) (.int maxP1)).1 = some .negMin := by decide
 
@@ -81,14 +77,12 @@ theorem mem_run_int (p : Option Tok) (rs : List Raw) (v : Nat)
   | cons r rs ih =>
     simp only [run, List.mem_append] at h
     rcases h with h | h
-    · -- yielded by this step: it was the buffer
-      left
+    · left
       unfold step at h
       split at h <;> (try split at h) <;> (try split at h) <;> (try split at h) <;>
         (cases p <;> simp_all)
     · rcases ih _ h with h' | ⟨i, hi, hn⟩
-      · -- the new buffer is this raw token, unmerged
-        right
+      · right
         have hr : r = .int v := by
           unfold step at h'
           split at h' <;> (try split at h') <;> (try split at h') <;> (try split at h') <;> simp_all
